@@ -27,7 +27,8 @@ pub fn profile_of(s: &str) -> Profile {
 
 pub struct Gen { pub rng: StdRng, pub profile: Profile }
 
-const STRS: &[&str] = &["", "a", "A", "abc", " a ", "1", "-7", "+5", "1.5", "true", "x y", "é", "ß", "aBc", "\u{3000}z ", "12abc", "170141183460469231731687303715884105728", "1e5", "inf", "NaN", ".5", "5.", "1_0", "0x1"];
+const STRS: &[&str] = &["", "a", "A", "abc", " a ", "1", "-7", "+5", "1.5", "true", "x y", "é", "ß", "aBc", "\u{3000}z ", "12abc", "170141183460469231731687303715884105728", "1e5", "inf", "NaN", ".5", "5.", "1_0", "0x1",
+    "the quick brown fox jumps", "  Padded Value With Spaces\t ", "quick brown", "ÀÉÎõü straße ÿµ×÷ªº MiXeD case 0123456789", "0123456789012345678", "aaaaaaaaaaaaaaaaaaaaaaaaaaaaaaaaab", "aaaaaaaaaaaaaaaaab"];
 const DEC_STRS: &[&str] = &["1", "1.50", "-2.5", "0.1", "abc", "", "79228162514264337593543950335", "79228162514264337593543950336", "-0.000"];
 const DATE_STRS: &[&str] = &["1970-01-01T00:00:00Z", "2015-07-30T03:26:13Z", "2015-07-30T03:26:13.5+02:00", "1969-12-31T23:59:59.999999999Z", "2000-02-29T12:00:00-05:30", "2015-07-30", "2015-07-30T03:26:13", "2015-13-01T00:00:00Z", "2015-02-30T00:00:00Z", "abc", "1", ""];
 
@@ -95,8 +96,8 @@ impl Gen {
             Ty::Str => Value::String(self.string()),
             Ty::DT => Value::DateTime(self.dt()),
             Ty::Dur => Value::Duration(self.dur()),
-            Ty::Vec => { let n = self.rng.gen_range(0..4); Value::Vec((0..n).map(|_| if depth == 0 { Value::Int(self.int()) } else { self.value(Ty::Any, depth - 1) }).collect()) }
-            Ty::Map => { let n = self.rng.gen_range(0..4); let keys = ["a", "A", "ab", "b", "facts", "k"];
+            Ty::Vec => { let n = if self.p(0.25) { self.rng.gen_range(4..8) } else { self.rng.gen_range(0..4) }; Value::Vec((0..n).map(|_| if depth == 0 { Value::Int(self.int()) } else { self.value(Ty::Any, depth - 1) }).collect()) }
+            Ty::Map => { let n = if self.p(0.25) { self.rng.gen_range(4..9) } else { self.rng.gen_range(0..4) }; let keys = ["a", "A", "ab", "b", "facts", "k", "aa", "B", "c", "key_with_a_long_name", "z"];
                 Value::Map((0..n).map(|_| (self.pick(&keys).to_string(), if depth == 0 { Value::Int(self.int()) } else { self.value(Ty::Any, depth - 1) })).collect()) }
         }
     }
@@ -125,11 +126,19 @@ impl Gen {
             // Decimals / Floats / containers are "the same argument" depends on the scale or zero sign the arithmetic
             // happens to produce, which the specification deliberately leaves open (DESIGN 4.4)
             1 => { let f = if self.p(0.5) && matches!(ty, Ty::Bool | Ty::Int | Ty::Str | Ty::DT | Ty::Dur) { "f" } else { "g" }; return Expr::func(f, self.expr(ty, d)); }
-            2 => { let i = self.rng.gen_range(0..3usize); let mut items: Vec<Expr> = (0..3).map(|_| self.expr(Ty::Any, d.min(1))).collect(); items[i.min(2)] = self.expr(ty, d);
-                   return Expr::index(Expr::Vec(items), Index::Vec(if self.p(0.85) { i } else { i + 3 })); }
+            2 => { let n = if self.p(0.3) { self.rng.gen_range(4..7usize) } else { 3 }; let i = self.rng.gen_range(0..n); let mut items: Vec<Expr> = (0..n).map(|_| self.expr(Ty::Any, d.min(1))).collect(); items[i] = self.expr(ty, d);
+                   return Expr::index(Expr::Vec(items), Index::Vec(if self.p(0.85) { i } else { i + n })); }
             3 if self.profile == Profile::Paths => { let key = self.pick(&["a", "A", "ab", "k", "facts"]);
                    let mut m = BTreeMap::new(); m.insert(key.to_string(), self.expr(ty, d)); m.insert("zz".to_string(), self.expr(Ty::Any, 0));
                    return Expr::index(Expr::Map(m), Index::Map(self.pick(&["a", "A", "ab", "k", "facts", "zz"]).to_string())); }
+            4 | 5 if self.profile == Profile::Paths => {
+                   // a chain of 1..4 steps into the input (long vectors / wide maps, non-first non-last positions)
+                   let mut e = if self.p(0.2) { Expr::reff("facts") } else { Expr::reff(self.pick(&["v", "m", "a", "zz"])) };
+                   for _ in 0..self.rng.gen_range(1..5) {
+                       e = if self.p(0.5) { Expr::index(e, Index::Vec(self.rng.gen_range(0..8))) }
+                           else { Expr::index(e, Index::Map(self.pick(&["a", "A", "ab", "b", "k", "facts", "aa", "B", "c", "key_with_a_long_name", "z", "v", "m"]).to_string())) };
+                   }
+                   return e; }
             _ => {}
         }
         match ty {
@@ -196,8 +205,8 @@ impl Gen {
                 4 => Expr::duration(self.expr(Ty::Dur, d)),
                 _ => self.leaf(Ty::Dur),
             },
-            Ty::Vec => { let n = self.rng.gen_range(0..4); Expr::Vec((0..n).map(|_| self.expr(num, d)).collect()) }
-            Ty::Map => { let n = self.rng.gen_range(0..3); Expr::Map((0..n).map(|i| (["a", "k", "ab"][i].to_string(), self.expr(Ty::Any, d))).collect()) }
+            Ty::Vec => { let n = if self.p(0.2) { self.rng.gen_range(4..7) } else { self.rng.gen_range(0..4) }; let dd = if n > 3 { d.min(1) } else { d }; Expr::Vec((0..n).map(|_| self.expr(num, dd)).collect()) }
+            Ty::Map => { let n = if self.p(0.2) { self.rng.gen_range(3..6) } else { self.rng.gen_range(0..3) }; let dd = if n > 2 { d.min(1) } else { d }; Expr::Map((0..n).map(|i| (["a", "k", "ab", "A", "zz", "facts"][i].to_string(), self.expr(Ty::Any, dd))).collect()) }
         }
     }
 
